@@ -89,7 +89,7 @@ def gen_case(rng, ty, long_rays):
             ops.append("OE %s %s" % (hf(o), hf(e)))
         else:
             ops.append("O %s" % hf(o))
-            ops.append("E %s" % hf(e))
+            ops.append("%s %s" % (rng.choice(["E", "E", "SE", "IT"]), hf(e)))
         if rng.random() < 0.25:
             ops.append("K")               # cast() re-use: advances the stored crossing parameters
     # history independence: repeat the first ray at the end, after everything else
@@ -116,7 +116,7 @@ def parse_case(case):
     while i < len(t):
         op = t[i]
         i += 1
-        if op == "O" or op == "E":
+        if op in ("O", "E", "SE", "IT"):
             ops.append((op, [float.fromhex(v) for v in t[i:i + dim]]))
             i += dim
         elif op == "OE":
@@ -193,7 +193,7 @@ def oracle(case, out):
             origin = op[1]
             end = op[2]
         else:
-            end = op[1]
+            end = op[1]               # E, SE, IT: the end point is specified, the origin is the stored one
         if origin is None:
             continue
         key = (tuple(origin), tuple(end))
